@@ -223,20 +223,31 @@ def validate (W : World B C) (p : Payload B C) : Except Err Unit :=
 
 /-- the Diffie–Hellman / key-derivation primitives (parameters; keys are symbols) -/
 structure DH where
-  /-- Ed25519 secret key ↦ public key -/
+  /-- Ed25519 secret key ↦ Ed25519 public key (the account IDENTITY) -/
   pub : Nat → Nat
-  /-- `curve25519.X25519(own secret, other's public)` (after the Ed25519→Curve25519 conversions) -/
+  /-- Ed25519 identity ↦ X25519 (Montgomery) public key, `Ed25519PublicKeyToCurve25519`. NOT injective:
+  a point and its negation (same bytes, sign bit flipped) and torsion shifts share their u-coordinate
+  or their X25519 result. -/
+  mont : Nat → Nat
+  /-- `curve25519.X25519(own secret, other's X25519 public key)` -/
   dh : Nat → Nat → Nat
-  /-- HKDF-SHA256(shared secret, context = the two raw public keys in sorted order) → SLIP-21 node at the
-  one-to-one path → Ed25519 seed: the SECRET joint key -/
-  kdf : Nat → Nat → Nat → Nat
+  /-- HKDF-SHA256(shared secret, context) → SLIP-21 node at the one-to-one path → Ed25519 seed: the
+  SECRET joint key -/
+  kdf : Nat → Nat × Nat → Nat
 
-/-- `buildSortedContext` / the `sort.Slice` of `makeOneToOneInfo`: the two public keys in ascending order -/
+/-- `buildSortedContext` / the `sort.Slice` of `makeOneToOneInfo`: the two byte strings in ascending order -/
 def sortPair (x y : Nat) : Nat × Nat := if x ≤ y then (x, y) else (y, x)
 
-/-- `crypto.GenerateSharedKey(aSk, bPk, path)` -/
-def sharedKey (D : DH) (aSk bPk : Nat) : Nat :=
-  D.kdf (D.dh aSk bPk) (sortPair (D.pub aSk) bPk).1 (sortPair (D.pub aSk) bPk).2
+/-- the two byte strings `GenerateSharedKey` hands to `buildSortedContext`: the two Ed25519 identities
+(`fromIdentities`, the unchanged tree) — or, hypothetically, the two X25519 public keys -/
+def kdfContext (D : DH) (fromIdentities : Bool) (aId bId : Nat) : Nat × Nat :=
+  if fromIdentities then sortPair aId bId else sortPair (D.mont aId) (D.mont bId)
+
+def sharedKeyWith (D : DH) (fromIdentities : Bool) (aSk bId : Nat) : Nat :=
+  D.kdf (D.dh aSk (D.mont bId)) (kdfContext D fromIdentities (D.pub aSk) bId)
+
+/-- `crypto.GenerateSharedKey(aSk, bPk, path)`; which context it uses is regenerated from the source -/
+def sharedKey (D : DH) (aSk bId : Nat) : Nat := sharedKeyWith D kdfContextFromIdentities aSk bId
 
 /-- everything `StoragePayloadForOneToOneSpaceWithType` feeds into header, ACL root and settings root:
 the joint key (identity, master key, signer, replication key), the sorted writers, the header type.
